@@ -427,3 +427,42 @@ package keeper
 //@   loop L3 invariant -1 <= rangeindex
 //@   loop L4 invariant -1 <= rangeindex
 //@   loop L5 invariant -1 <= rangeindex
+// emitEvent (deferred in Complete) only reports the outcome as an event
+//@ func emitEvent(ctx, orderId, err)
+//@   requires orderId != nil && err != nil
+//@   modifies nothing
+
+// Complete: the provider a shard was assigned to (or an address it registered) reports the shard as stored.
+// Scope: completion of a waiting shard. The completion of a migrated shard (status ShardMigrating: release of the old
+// provider, hand-over of the worker, rewrite of every renewal order's shard list) is excluded by the first precondition and
+// is NOT verified.
+//@ func (msgServer) Complete(goCtx, msg) (resp, err)
+//@   requires [scope.nomigration] forall i int :: 0 <= i && i <= MaxUint64 && has(Shard, i) ==> Shard[i].Status != ShardMigrating
+//@   requires msg != nil
+//@   requires forall c string :: has(PledgeDebt, c) ==> PledgeDebt[c].Debt.Amount >= 0
+//@   requires forall i int :: 0 <= i && i <= MaxUint64 && has(Shard, i) ==> Shard[i].Pledge.Amount >= 0 && Shard[i].Size_ <= MaxInt64
+//@       && Shard[i].CreatedAt + Shard[i].Duration <= MaxInt64 && (Shard[i].Status == ShardCompleted ==> Shard[i].CreatedAt + Shard[i].Duration >= H)
+//@   requires forall i int :: 0 <= i && i <= MaxUint64 && has(Order, i) ==> Order[i].UnitPrice.Amount >= 0 && Order[i].Duration <= MaxInt64
+//@   requires forall c string :: has(Metadata, c) ==> Metadata[c].CreatedAt + Metadata[c].Duration <= MaxUint64
+//@   requires [C11.sched.unique] forall c string, h int :: has(Metadata, c) && 0 <= h && h <= MaxUint64 && has(ExpiredData, h) && contains(ExpiredData[h].Data, c) ==> h == u64(Metadata[c].CreatedAt + Metadata[c].Duration)
+//@   requires [C11.sched.once] forall c string, h int, i int, j int :: 0 <= h && h <= MaxUint64 && has(ExpiredData, h) && 0 <= i && i < j && j < len(ExpiredData[h].Data) ==> !(ExpiredData[h].Data[i] == c && ExpiredData[h].Data[j] == c)
+//@   modifies *
+//@   loop L2 invariant 0 <= i
+//@   loop L3 noframe
+//@   loop L3 invariant -1 <= rangeindex
+//@   loop L3 invariant orderInProgress.UnitPrice == entry(orderInProgress.UnitPrice)
+//@   loop L4 invariant -1 <= rangeindex
+//@   ensures [C10.complete.actor] err == nil ==> actsFor(msg.Creator, msg.Provider, old(has(Node, msg.Provider)), old(Node[msg.Provider]))
+//@   ensures [C13.complete.stored] [C11.complete.sched] err == nil ==> exists j int :: 0 <= j && j < len(old(Order[msg.OrderId].Shards))
+//@       && has(Shard, old(Order[msg.OrderId].Shards)[j]) && Shard[old(Order[msg.OrderId].Shards)[j]].Sp == msg.Provider
+//@       && Shard[old(Order[msg.OrderId].Shards)[j]].Status == ShardCompleted && Shard[old(Order[msg.OrderId].Shards)[j]].CreatedAt == H
+//@       && Shard[old(Order[msg.OrderId].Shards)[j]].Duration == old(Order[msg.OrderId].Duration)
+//@       && has(ExpiredShard, u64(H + old(Order[msg.OrderId].Duration))) && contains(ExpiredShard[u64(H + old(Order[msg.OrderId].Duration))].ShardList, old(Order[msg.OrderId].Shards)[j])
+//@   ensures [C16.complete.status] err == nil ==> has(Order, msg.OrderId) && Order[msg.OrderId].Status == OrderCompleted
+//@   ensures [C04.complete.deposit] [C06.complete.deposit] err == nil && old(Order[msg.OrderId].Status) != OrderCompleted && moduleAddr("order") != moduleAddr("market")
+//@       && old(Order[msg.OrderId].Operation) != 2 && addr(msg.Provider) != moduleAddr("order") && moduleAddr("node") != moduleAddr("order") ==>
+//@       bal(moduleAddr("order"), old(Order[msg.OrderId].Amount.Denom)) == old(bal(moduleAddr("order"), Order[msg.OrderId].Amount.Denom)) - old(Order[msg.OrderId].Amount.Amount)
+//@   ensures [C10.complete.assigned] err == nil ==> old(has(Order, msg.OrderId)) && exists j int :: 0 <= j && j < len(old(Order[msg.OrderId].Shards))
+//@       && old(has(Shard, Order[msg.OrderId].Shards[j])) && old(Shard[Order[msg.OrderId].Shards[j]].Sp) == msg.Provider
+//@   loop L1 invariant -1 <= rangeindex
+//@   loop L1 invariant isProvider ==> contains(provider.TxAddresses, msg0.Creator)
